@@ -11,6 +11,7 @@
    started, `t_in`/`t_out` their substreams, `t_fwd` what a Connection handed to the handle's channel. *)
 From Coq Require Import List NArith Bool.
 From V.C12 Require Import Start StartProofs.
+From V.gen Require C12Tables.
 Import ListNotations.
 Open Scope N_scope.
 
@@ -128,3 +129,22 @@ Theorem C12_start_handle_gone_closes :
                t_in t' = t_in t /\ t_fwd t' = t_fwd t.
 Proof. exact handle_gone_closes. Qed.
 Print Assumptions C12_start_handle_gone_closes.
+
+(* ---------------------------------------------------------------- the tie to the source *)
+
+(* The orders and mappings the models hard-wire are the ones of the Rust source (extracted on every check into
+   coq/gen/C12Tables.v): the biased select! of next_event and the order of its branches, the order of the stages of
+   Connection::poll_next and of close_connection, event channel before notification channel in the handle, the
+   mapping of try_send's errors, try_send for the synchronous and send for the asynchronous mode, the calls of the
+   HandshakeService that forget a queued result, sane default capacities and negotiation timeout. *)
+Theorem C12_tables_in_sync :
+  C12Tables.select_biased = true /\ C12Tables.select_order = [1; 2; 3; 4; 5; 6] /\
+  C12Tables.conn_poll_order = [1; 2; 3; 4; 5] /\ C12Tables.close_order = [1; 2; 3; 4; 5] /\
+  C12Tables.handle_order = [1; 2] /\
+  C12Tables.notification_errors = 6 /\ C12Tables.sync_closed_maps_to = 1 /\ C12Tables.sync_full_maps_to = 2 /\
+  C12Tables.sync_uses_try_send = true /\ C12Tables.async_uses_send = true /\
+  C12Tables.forget_sites = [true; true; true; true; true] /\
+  1 <= C12Tables.C12_SYNC_CHANNEL_SIZE /\ 1 <= C12Tables.C12_ASYNC_CHANNEL_SIZE /\
+  1 <= C12Tables.C12_NEGOTIATION_TIMEOUT_SECS.
+Proof. exact tables_in_sync. Qed.
+Print Assumptions C12_tables_in_sync.
